@@ -106,6 +106,7 @@ func vpH_C19_hist2() { vpC19Hist(2) }
 func vpH_C19_hist3() { vpC19Hist(3) }
 
 func vpT_C19_hist4() { vpC19Hist(4) }
+
 // (histories of five operations over four tags and empty/non-empty texts exceed 400 000 paths: not registered)
 
 // vpC19Pairs builds a list of k entries with pairwise distinct symbolic tags.
